@@ -42,6 +42,7 @@ const (
 	c14AllocPerByte = 400
 	c14CPUBaseMs    = 4000 // CPU budget per input: 4 s + 1000 x (calibrated ns/byte of valid files) x size
 	c14ExitCPU      = 7
+	c14ExitDeadlock = 8
 )
 
 type c14Result struct {
@@ -181,12 +182,49 @@ var c14Watch struct {
 	on     bool
 }
 
+// c14AllBlocked: every goroutine except the caller is blocked on a channel operation, a select or a sync primitive.
+func c14AllBlocked() bool {
+	buf := make([]byte, 1<<20)
+	buf = buf[:runtime.Stack(buf, true)]
+	n, blocked := 0, 0
+	for i, g := range strings.Split(string(buf), "\n\n") {
+		if i == 0 || !strings.HasPrefix(g, "goroutine ") {
+			continue // the first block is the calling goroutine
+		}
+		n++
+		hdr := g
+		if j := strings.IndexByte(g, '\n'); j > 0 {
+			hdr = g[:j]
+		}
+		for _, st := range []string{"[chan receive", "[chan send", "[select", "[semacquire", "[sync.Mutex.Lock", "[sync.RWMutex", "[sync.WaitGroup.Wait", "[sync.Cond.Wait"} {
+			if strings.Contains(hdr, st) {
+				blocked++
+				break
+			}
+		}
+	}
+	return n > 0 && n == blocked
+}
+
 func c14StartWatchdog() {
 	go func() {
+		idle, idleCPU := 0, time.Duration(0)
 		for {
 			time.Sleep(50 * time.Millisecond) // sampling cadence only
 			c14Watch.Lock()
 			if c14Watch.on {
+				// logical hang: the process burns no CPU at all while a load is in flight and every goroutine other than this
+				// one is parked on a channel / lock (what the Go runtime reports as "all goroutines are asleep" when no timer runs)
+				if now := c14CPU(); now-idleCPU < time.Millisecond {
+					idle++
+				} else {
+					idle, idleCPU = 0, now
+				}
+				if idle >= 40 && c14AllBlocked() {
+					b, _ := json.Marshal(c14Result{I: c14Watch.idx, O: "deadlock"})
+					fmt.Printf("\nC14= %s\n", b)
+					os.Exit(c14ExitDeadlock)
+				}
 				if used := c14TaskCPU() - c14Watch.start; used > c14Watch.budget {
 					b, _ := json.Marshal(c14Result{I: c14Watch.idx, O: "cpu-exceeded", CPUus: int64(used / time.Microsecond)})
 					fmt.Printf("\nC14= %s\n", b)
@@ -479,6 +517,8 @@ func (p *c14Run) confirm(mode string, i int) (string, childResult, []c14Result) 
 		return "watchdog", cr, rs
 	case cr.Exit == c14ExitCPU && len(rs) == 1 && rs[0].O == "cpu-exceeded":
 		return "cpu-exceeded", cr, rs
+	case cr.Exit == c14ExitDeadlock && len(rs) == 1 && rs[0].O == "deadlock":
+		return "deadlock", cr, rs
 	case cr.Exit != 0 || cr.Signaled || len(rs) != 1:
 		return "died", cr, rs
 	}
@@ -499,7 +539,7 @@ func (p *c14Run) batch(mode string, lo, hi int, gen func(i int) c14Input) (cpu t
 		seen := lo - 1
 		cpuExceeded := false
 		for _, r := range rs {
-			if r.O == "cpu-exceeded" {
+			if r.O == "cpu-exceeded" || r.O == "deadlock" {
 				cpuExceeded = true
 				continue
 			}
@@ -529,7 +569,7 @@ func (p *c14Run) batch(mode string, lo, hi int, gen func(i int) c14Input) (cpu t
 		desc := fmt.Sprintf("input#%d family=%s size=%d", bad, in.Family, len(in.Data))
 		kind, cr2, rs2 := p.confirm(mode, bad)
 		if cpuExceeded {
-			if kind == "cpu-exceeded" {
+			if kind == "cpu-exceeded" || kind == "deadlock" {
 				p.hangsConfirmed.Add(1)
 			}
 			p.hangMu.Unlock()
@@ -540,6 +580,8 @@ func (p *c14Run) batch(mode string, lo, hi int, gen func(i int) c14Input) (cpu t
 			budget := float64(c14CPUBaseMs)/1000 + float64(p.nsPerByte)*float64(len(in.Data))/1e9
 			c.Violate("", fmt.Sprintf("LoadSTL-hang consumed %.1f s CPU (budget %.1f s = 4 s + 1000 x valid-file time for this size), twice, once alone in a fresh process, on %s",
 				float64(rs2[0].CPUus)/1e6, budget, desc), rp)
+		case kind == "deadlock":
+			c.Violate("", fmt.Sprintf("LoadSTL-hang never returns: the load consumed no CPU for 2 s with every goroutine blocked on a channel or lock (goroutine deadlock), twice, once alone in a fresh process, on %s", desc), rp)
 		case kind == "died":
 			rp["child_output_tail"] = c14Tail(cr2.Out, 1500)
 			c.Violate("", fmt.Sprintf("LoadSTL-crash process died (exit=%d signaled=%v) twice, once alone in a fresh process, on %s: %s", cr2.Exit, cr2.Signaled, desc,
